@@ -4,7 +4,7 @@ From Snax Require Import Base.Prelude Model.C20Phs Proofs.C20PhsProofs Proofs.C2
   Proofs.C20SearchProofs Proofs.C20AppendProofs.
 
 (* an embedded kernel's operations are among the alternatives: decode's choice (phs.same_operation) is the
-   kernel's operation — no attribute-freeness needed since fix 29d845f *)
+   kernel's operation — no attribute-freeness needed since fix 61ae0b2 *)
 Lemma emb_ops_agree g G : is_concrete g = true -> embeds g G -> ops_agree g G = true.
 Proof.
   intros Hc [Hn _]. rewrite Forall_forall in Hn.
